@@ -169,51 +169,119 @@ theorem C14_first_claimant (h ops : List Op) (n : Name) (svc : SvcName)
   have : SvcState.init.run (h ++ ops) = (SvcState.init.run h).run ops := by
     simp [SvcState.run, List.foldl_append]
   rw [this]
-  exact first_claimant_run n svc ops _ (C06_service_invariant_base h) hown hk
-where
-  C06_service_invariant_base (h : List Op) : SInv0 (SvcState.init.run h) := SInv0_run SInv0_init h
+  exact first_claimant_run n svc ops _ (WInv_run WInv_init h) hown hk
 
-/-- A later claimant of an owned service gets nothing: its update leaves the route untouched. -/
+/-- A later claimant of an owned service does not get the route: its update leaves the route untouched (its claim
+    is remembered in the waiting list, `C14_release_hands_over`). -/
 theorem C14_later_claimant (h : List Op) (n : Name) (d : Desc) (svc : SvcName) (r : SvcRoute)
     (hr : (SvcState.init.run h).routes svc = some r) (hne : r.target ≠ n) :
     (SvcState.init.run (h ++ [.update n d])).routes svc = some r := by
   rw [run_snoc_svc]
-  have inv : SInv0 (SvcState.init.run h) := SInv0_run SInv0_init h
-  simp only [SvcState.step]
-  split
-  · exact hr
-  · split
-    · exact hr
-    · rename_i hd
-      have hd' : d.name = n := by simpa using hd
-      rw [update_foreign inv d svc ⟨r, hr, by rw [hd']; exact hne⟩]; exact hr
+  exact C06_isolation_service h (.update n d) svc r hr hne
 
-/-- **Release**: when the owner is closed, or delivers a description that no longer lists the service,
-    the service is unrouted (Unimplemented / NotFound) until some target claims it with a later update. -/
-theorem C14_release (h : List Op) (n : Name) (svc : SvcName) (r : SvcRoute)
-    (hr : (SvcState.init.run h).routes svc = some r) (hn : r.target = n) :
-    (SvcState.init.run (h ++ [.close n])).routes svc = none ∧
-    ∀ d, d.name = n → ¬ listed d.services svc → (SvcState.init.run (h ++ [.update n d])).routes svc = none := by
-  have inv : SInv (SvcState.init.run h) (latestOf h) := SInv_run SInv_init h
-  have hw : (SvcState.init.run h).watching n = true := by
-    rw [inv.watch, ← hn]
-    obtain ⟨d, hd, _⟩ := specSvcRoute_some (inv.latest _ _ hr)
+/-- the same theorem under the name the coordinator's plan uses -/
+theorem C14_first_claimant_keeps (h ops : List Op) (n : Name) (svc : SvcName)
+    (hown : ∃ r, (SvcState.init.run h).routes svc = some r ∧ r.target = n)
+    (hk : Keeps n svc ops) :
+    ∃ r, (SvcState.init.run (h ++ ops)).routes svc = some r ∧ r.target = n :=
+  C14_first_claimant h ops n svc hown hk
+
+/-- the entry the earliest remaining claimant gets: `rest` = the claimants behind the owner, in claim order -/
+def C14_nextOwner (l : Latest) (rest : List Name) (svc : SvcName) : Option SvcRoute :=
+  match rest with
+  | [] => none
+  | m :: _ => specSvcRoute l m svc
+
+/-- **Release hands over** (fix D31).  Let `n :: rest` be the claimants of `svc` after `h` in claim order (`n` the
+    owner).  When `n` is closed, or delivers a description that no longer lists `svc`, the service is routed —
+    immediately, by that very operation — to the EARLIEST remaining claimant `m` (head of `rest`) with `m`'s LATEST
+    description (version and index of the service); when nobody else lists it (`rest = []`) it becomes unrouted. -/
+theorem C14_release_hands_over (h : List Op) (n : Name) (rest : List Name) (svc : SvcName)
+    (hc : claimsOf h svc = n :: rest) :
+    (SvcState.init.run (h ++ [.close n])).routes svc = C14_nextOwner (latestOf h) rest svc ∧
+    ∀ d, d.name = n → ¬ listed d.services svc →
+      (SvcState.init.run (h ++ [.update n d])).routes svc = C14_nextOwner (latestOf h) rest svc := by
+  have inv := C06_service_invariant h
+  have hnd : (n :: rest).Nodup := hc ▸ inv.cNodup svc
+  obtain ⟨hn, _⟩ := List.nodup_cons.mp hnd
+  have hw : (latestOf h).watched n = true := by
+    obtain ⟨d, hd, _⟩ := (inv.claims svc n).mp (by rw [hc]; simp)
     exact desc_some_watched _ _ d hd
+  have hfilt : (n :: rest).filter (fun m => decide (m ≠ n)) = rest := by
+    rw [List.filter_cons, if_neg (by simp), List.filter_eq_self]
+    intro k hk; exact decide_eq_true (fun e => hn (by rw [← e]; exact hk))
+  unfold C14_nextOwner
   constructor
-  · rw [run_snoc_svc]
-    simp only [SvcState.step, hw, Bool.not_true, Bool.false_eq_true, ↓reduceIte]
-    show ((SvcState.init.run h).removeTarget n).routes svc = none
-    rw [removeTarget_routes]
-    have := inv.base.owned _ _ hr
-    rw [hn] at this
-    simp [this]
+  · have inv' := C06_service_invariant (h ++ [.close n])
+    rw [inv'.owner_head svc, (C06_claim_order h svc n ⟨n, 0, []⟩).2.2.1, hc, hfilt]
+    cases rest with
+    | nil => rfl
+    | cons m ms =>
+      have hmn : m ≠ n := fun e => hn (by rw [← e]; simp)
+      simp only
+      apply specSvcRoute_congr
+      rw [latestOf_snoc, desc_close]; simp [hmn]
   · intro d hd hl
-    rw [run_snoc_svc]
-    simp only [SvcState.step, hw, Bool.not_true, Bool.false_eq_true, ↓reduceIte, hd, ne_eq, not_true_eq_false]
-    apply update_unlisted inv.base d svc hl
-    rintro ⟨o, ho, hne⟩
-    rw [hr] at ho; cases ho
-    exact hne (hn.trans hd.symm)
+    have inv' := C06_service_invariant (h ++ [.update n d])
+    rw [inv'.owner_head svc, (C06_claim_order h svc n d).2.2.2.2.1 hw hd hl, hc, hfilt]
+    cases rest with
+    | nil => rfl
+    | cons m ms =>
+      have hmn : m ≠ n := fun e => hn (by rw [← e]; simp)
+      simp only
+      apply specSvcRoute_congr
+      rw [latestOf_snoc, desc_update]; simp [hmn]
+
+/-- in particular: a service that another live target still lists never becomes unrouted by a release -/
+theorem C14_release_keeps_routed (h : List Op) (n m : Name) (svc : SvcName) (hmn : m ≠ n)
+    (hm : Lists (latestOf h) m svc) :
+    ∃ r, (SvcState.init.run (h ++ [.close n])).routes svc = some r ∧ r.target ≠ n := by
+  have hl : Lists (latestOf (h ++ [.close n])) m svc := by
+    rw [latestOf_snoc]
+    exact (Lists_congr (by rw [desc_close]; simp [hmn]) svc).mpr hm
+  obtain ⟨r, hr, hrl⟩ := C06_service_routed (h ++ [.close n]) svc m hl
+  refine ⟨r, hr, ?_⟩
+  intro e
+  obtain ⟨d, hd, _⟩ := hrl
+  rw [e, latestOf_snoc, desc_close] at hd
+  simp at hd
+
+/-- **No unrouted gap for lock-free readers**: every sync.Map state a `Close(n)` goes through maps a service owned
+    by `n` either still to `n`'s entry or already to the first waiting claimant — when somebody waits, never to
+    "absent" (the hand-over is ONE `Store`, not `Delete` + `Store`). -/
+theorem C14_handover_no_gap (h : List Op) (n : Name) (svc : SvcName) (o e : SvcRoute) (es : List SvcRoute)
+    (ho : (SvcState.init.run h).routes svc = some o)
+    (hw : (SvcState.init.run h).waiting svc = e :: es) :
+    ∀ r' ∈ removeTrace (SvcState.init.run h) n, r' svc = some o ∨ r' svc = some e := by
+  intro r' hr'
+  have inv := (C06_service_invariant h).winv
+  rcases delLoopTrace_handover [] svc _ _ (inv.svNodup n) r' hr' with h1 | h1
+  · exact Or.inl (h1.trans ho)
+  · exact Or.inr (by rw [h1]; simp [hw])
+
+/-! ### D31: what was wrong before the fix (kernel-checked witness on explicit data) -/
+
+/-- descriptions of "a" and "b", both listing service "S" -/
+def d31a : Desc := ⟨[97], 1, [⟨[83], []⟩]⟩
+def d31b : Desc := ⟨[98], 3, [⟨[83], []⟩]⟩
+/-- `watch a; update a{S}; watch b; update b{S}; close a` -/
+def d31h : List Op := [.watch [97], .update [97] d31a, .watch [98], .update [98] d31b, .close [97]]
+
+/-- The ORIGINAL code (`SvcState.runOrig`: conflicting claims only logged, release = `Delete`): after the owner "a"
+    is closed, "S" is unrouted although "b" is still watched and its current description lists "S" — and it stays
+    so until b's contract changes … -/
+theorem C14_original_release_leaves_live_lister_unrouted :
+    (SvcState.init.runOrig d31h).routes [83] = none ∧
+    (latestOf d31h).desc [98] = some d31b ∧ (latestOf d31h).watched [98] = true ∧
+    (SvcState.init.runOrig (d31h ++ [.update [98] d31b])).routes [83] = some ⟨[98], 3, 0⟩ := by
+  decide
+
+/-- … whereas the fixed code hands "S" over to "b" (with b's latest description) by the Close itself. -/
+theorem C14_release_hands_over_witness :
+    (SvcState.init.run d31h).routes [83] = some ⟨[98], 3, 0⟩ ∧
+    (SvcState.init.run (d31h.take 4)).routes [83] = some ⟨[97], 1, 0⟩ ∧
+    (SvcState.init.run (d31h.take 4)).waiting [83] = [⟨[98], 3, 0⟩] := by
+  decide
 
 /-! ### D16: what was wrong before the fix (kernel-checked witness on explicit data) -/
 
@@ -247,7 +315,7 @@ example : (parseTarget [47, 112, 37, 50, 69, 83, 47, 77]).map (fun u => (httpNam
 
 /-- `n` owns `svc` (and the claim bookkeeping is consistent) -/
 def C14_Owns (n : Name) (svc : SvcName) (st : SvcState) : Prop :=
-  SInv0 st ∧ ∃ r, st.routes svc = some r ∧ r.target = n
+  WInv st ∧ ∃ r, st.routes svc = some r ∧ r.target = n
 
 /-- an operation under which the owner neither closes nor drops the service -/
 def C14_KeepsOp (n : Name) (svc : SvcName) (op : Op) : Prop :=
@@ -259,12 +327,12 @@ def C14_KeepsOp (n : Name) (svc : SvcName) (op : Op) : Prop :=
 theorem C14_owner_invariant (n : Name) (svc : SvcName) (st : SvcState) (op : Op)
     (h : C14_Owns n svc st) (hk : C14_KeepsOp n svc op) : C14_Owns n svc (st.step op).1 := by
   obtain ⟨inv, r, hr, hn⟩ := h
-  exact ⟨SInv0_step inv op, first_claimant_step inv n svc r hr hn op hk⟩
+  exact ⟨WInv_step inv op, first_claimant_step inv n svc r hr hn op hk⟩
 
 theorem C14_owns_reachable (h : List Op) (n : Name) (svc : SvcName) (r : SvcRoute)
     (hr : (SvcState.init.run h).routes svc = some r) (hn : r.target = n) :
     C14_Owns n svc (SvcState.init.run h) :=
-  ⟨SInv0_run SInv0_init h, r, hr, hn⟩
+  ⟨WInv_run WInv_init h, r, hr, hn⟩
 
 /-- **The same at the granularity of atomic map operations**: `stepTrace st op` lists the sync.Map after every single
     LoadOrStore / Store / Delete the operation performs (and ends in the map of the model's step,
@@ -292,8 +360,9 @@ theorem C14_trace_ends_in_step (st : SvcState) (d : Desc) (n : Name) :
   constructor
   · unfold updateTrace updateRoutes
     simp only
-    rw [happ, addLoopTrace_last d.name d.ver d.services 0 st.routes [], delLoopTrace_last]
-  · exact delLoopTrace_last [] _ st.routes
+    rw [happ, addLoopTrace_last d.name d.ver d.services 0 ⟨st.routes, st.waiting, []⟩]
+    exact delLoopTrace_last _ _ _
+  · exact delLoopTrace_last [] _ _
 
 /-! ### the seeded variant C14-m3 (Swap, then Store the old value back): kernel-checked witness -/
 
@@ -305,7 +374,7 @@ def swapDesc : Desc := ⟨[98], 3, [⟨[83], []⟩]⟩
 /-- Sequentially the variant is indistinguishable here: after b's update "S" is a's again, exactly as with the
     real code … -/
 theorem C14_swap_variant_same_end_state :
-    (updateRoutesSwap swapSt swapDesc).routes [83] = some ⟨[97], 2, 0⟩ ∧
+    swapLoopEnd swapSt swapDesc [83] = some ⟨[97], 2, 0⟩ ∧
     (updateRoutes swapSt swapDesc).routes [83] = some ⟨[97], 2, 0⟩ := by decide
 
 /-- … but between the `Swap` and the `Store` back there is a sync.Map state in which "S" belongs to "b":
@@ -393,7 +462,7 @@ theorem C14_http_forms_agree_with_pattern_default
     exact ⟨pre, _, post', htbl, hm, hpre⟩
   · -- service side
     obtain ⟨ρ, hρ, hρn⟩ := hown
-    have hlat := (SInv_run SInv_init h).latest _ _ hρ
+    have hlat := (C06_service_latest h svc ρ hρ).1
     rw [hρn] at hlat
     obtain ⟨d', hd', j, hj, hρe⟩ := specSvcRoute_some hlat
     have hdd : d' = d := by
@@ -489,12 +558,23 @@ theorem C14_stack_pattern_settled (valid : Bytes → Bool) (eval : Bytes → Rou
       routeHTTP (presentOf h) eval (specTable valid (specLatest h) names) m path :=
   Stack_pattern_settled valid eval h names m path hnames hu
 
-/-- `Stack_earliest_lister_not_owner` (GB/Stack/Props.lean), restated here so that `./check C14` audits it. -/
-theorem C14_stack_earliest_lister_not_owner :
-    (run (fun _ => true) St.init [.add exA (some exDesc), .add exB (some exDesc), .remove exA]).svc.routes exS = none ∧
+/-- `Stack_earliest_live_lister_owns` (GB/Stack/Props.lean), restated here so that `./check C14` audits it. -/
+theorem C14_stack_earliest_live_lister_owns (valid : Bytes → Bool) (h : List Stack.Op) (S : SvcName) :
+    ((run valid St.init h).svc.routes S = match claimsOf (toC06 h) S with
+      | [] => none
+      | T :: _ => specSvcRoute (specLatest h) T S) ∧
+    (∀ T, T ∈ claimsOf (toC06 h) S ↔ Lists (specLatest h) T S) ∧ (claimsOf (toC06 h) S).Nodup ∧
+    (∀ T, Lists (specLatest h) T S →
+      ∃ r, (run valid St.init h).svc.routes S = some r ∧ Lists (specLatest h) r.target S) :=
+  Stack_earliest_live_lister_owns valid h S
+
+/-- `Stack_earliest_live_lister_owns_witness`, restated here so that `./check C14` audits it. -/
+theorem C14_stack_earliest_live_lister_owns_witness :
+    (run (fun _ => true) St.init [.add exA (some exDesc), .add exB (some exDesc), .remove exA]).svc.routes exS
+      = some ⟨exB, 1, 0⟩ ∧
     (run (fun _ => true) St.init [.add exA (some exDesc), .add exB (some exDesc), .remove exA]).present exB = true ∧
     (run (fun _ => true) St.init [.add exA (some exDesc), .add exB (some exDesc)]).svc.routes exS = some ⟨exA, 1, 0⟩ :=
-  Stack_earliest_lister_not_owner 
+  Stack_earliest_live_lister_owns_witness
 
 /-- the first-claimant theorem applies: `a` owns `S`, then `b` is added claiming `S` as well -/
 example : ∃ r, (run (fun _ => true) St.init ([Stack.Op.add exA (some exDesc)] ++ [Stack.Op.add exB (some exDesc)])).svc.routes exS
